@@ -367,6 +367,11 @@ class Exec:
     def attribute(self, n):
         st = self.st
         if n.attr == 'shape': return ('shape', self.ev(n.value))
+        if n.attr == 'dtype': self.ev(n.value); return TypeV('dtype')
+        if n.attr == '__class__':
+            b = self.ev(n.value)
+            if isinstance(b, ObjV): return ('ctor', b.cls)
+            raise Undecided('__class__ of non-object')
         if n.attr == 'T': raise Undecided('.T')
         base = self.ev(n.value)
         if isinstance(base, ModV): return self.modattr(base, n.attr)
@@ -543,7 +548,19 @@ class Exec:
             if isinstance(v, (tuple, list)): return IntV(len(v))
             if isinstance(v, (View, Lazy)): return IntV(v.length)
             raise Undecided('len')
-        if fn == 'isinstance': raise Undecided('isinstance')
+        if fn == 'isinstance' and len(n.args) == 2:
+            v = self.ev(n.args[0]); tn = ast.unparse(n.args[1])
+            if isinstance(v, ObjV): return tn.split('.')[-1] in (v.cls, 'cls') or tn in ('cls', 'self.__class__')
+            if isinstance(v, (IntV, Cell, bool)) or v is None: return False if tn.split('.')[-1] in ('UTPM', 'cls', 'ndarray', 'Function') or tn in ('self.__class__', 'numpy.ndarray') else _undecided('isinstance of scalar against ' + tn)
+            raise Undecided('isinstance')
+        if fn == 'numpy.isscalar' and len(n.args) == 1:
+            v = self.ev(n.args[0]); return isinstance(v, (IntV, Cell))
+        if fn == 'numpy.asarray' and len(n.args) == 1: return self.ev(n.args[0])
+        if fn == 'numpy.zeros' and n.args and alg.name != 'mat':
+            shp = self.ev(n.args[0])
+            if isinstance(shp, tuple) and shp and shp[0] == 'shape' and isinstance(shp[1], (View, Lazy)):
+                bid = st.new_base(shp[1].length, z3.K(I, alg.zero), name='zeros'); return View(bid, z3.IntVal(0), 1, shp[1].length)
+            raise Undecided('numpy.zeros of a non-array shape')
         if fn == 'math.factorial':
             v = self.ev(n.args[0]); return IntV(FACT(v.t))
         if fn == 'math.sqrt':
@@ -611,6 +628,11 @@ class Exec:
             if o is None:
                 bid = st.new_base(src.length, z3.K(I, cc), name='filled'); return View(bid, z3.IntVal(0), 1, src.length)
             self.store_view(o, Lazy(o.length, lambda i: cc)); return o
+        if fn in ('UTPM', 'cls', 'self.__class__', 'algopy.UTPM') and len(n.args) == 1 and (fn != 'cls' or st.env.get('cls') is None):
+            a0 = self.ev(n.args[0])
+            if isinstance(a0, Lazy): a0 = self.materialize(a0)
+            if isinstance(a0, View): return ObjV('UTPM', {'data': a0})
+            raise Undecided('constructor argument')
         # generic: callee under contract, opaque function value, method of object
         f = self.ev(n.func)
         if isinstance(f, tuple) and f and f[0] == 'clsmethod':
@@ -943,6 +965,9 @@ def _sum_consts(fs):
         if z3.is_const(t) and t.decl().kind() == z3.Z3_OP_UNINTERPRETED and t.decl().name().startswith('S!'): out.add(t.decl().name())
         stack.extend(t.children())
     return out
+
+def _undecided(msg): raise Undecided(msg)
+
 
 def _has_quant(f):
     seen = set(); stack = [f]
